@@ -9,7 +9,7 @@ import numpy as np
 from . import common
 from .common import harness
 
-BASES = {"c01": "C01", "c02": "C02", "c03": "C03", "c04": "C04", "c05": "C05", "c07": "C07", "c08": "C08", "c09": "C09"}
+BASES = {"c06": "C06", "c01": "C01", "c02": "C02", "c03": "C03", "c04": "C04", "c05": "C05", "c07": "C07", "c08": "C08", "c09": "C09"}
 
 
 def _base(p):
@@ -103,6 +103,14 @@ def jobs(tier, seed):
     add("c04", "C04.ufunc", dict(R=3, L=2, op="subtract", kind="rr_bad", dt1="int64", dt2="int64"))
     for bp in (dict(op="sum0", dtype="int64", R=3, L=3), dict(op="col_counts", dtype="int64", R=3, L=3), dict(op="colvals", dtype="int64", R=3, L=3)):
         add("c09", "C09.columns", bp)
+    # selections of selections and operations whose operand is a pending selection (second gathers on (start, length) codes)
+    for steps in (["rowlist", "mask"], ["rowrev", "mask"], ["mask", "rowlist"], ["rowslice_a", "rowlist"], ["colslice_a", "mask"], ["rowlist", "colrev"], ["mask", "mask"], ["rowstep2", "rowrev"]):
+        for pk in ("read", "rowsum") if q else ("read", "rowsum", "rowint", "colslice", "set_row"):
+            add("c06", "C06.derived", dict(R=2 if q else 3, L=2, B=2, steps=steps, probe=pk))
+    for pre in ("rowlist", "mask", "rowrev"):
+        add("c05", "C05.reduce", dict(R=3, L=2, op="sum", via="method", pre=pre))
+        add("c08", "C08.onview", dict(R=3, L=1 if pre == "rowlist" else 2, pre=pre if pre != "rowlist" else "rowlist3", op="concat"))
+        add("c09", "C09.onview", dict(R=3, L=1 if pre == "rowlist" else 2, pre=pre if pre != "rowlist" else "rowlist3", op="sum0"))
     return out
 
 
